@@ -166,6 +166,10 @@ func (C06) Gen(rt *rapid.T, tier string) any {
 		if chance(rt, 25, "cancel") {
 			sc.CancelAt = rapid.IntRange(0, 600).Draw(rt, "cancel.at")
 		}
+		// cancellation in the middle of the temporary copy of a file that needs a host path
+		if len(hostFiles) > 0 && chance(rt, 30, "cancelon") {
+			sc.CancelOn = &scan.Fault{Op: "read", Path: oneOf(rt, hostFiles, "cancelon.path"), K: rapid.IntRange(1, 6).Draw(rt, "cancelon.k")}
+		}
 	} else if chance(rt, 25, "cancel") {
 		sc.CancelAt = rapid.IntRange(0, 12).Draw(rt, "cancel.at")
 	}
@@ -321,7 +325,7 @@ func (C06) evaluate(sc *C06Scenario) *sim.Outcome {
 	out.HistoryFP = obs.HistFP
 	out.Count("mode."+sc.Mode, 1)
 	out.Sample = map[string]any{"os": sc.OS, "mode": sc.Mode, "files": describeFiles(sc.Files), "dirs": sc.Dirs, "cwd_mirror": sc.CwdMirror,
-		"faults": sc.Disk.Faults, "os_faults": sc.OSFaults, "cancel_at": sc.CancelAt}
+		"faults": sc.Disk.Faults, "os_faults": sc.OSFaults, "cancel_at": sc.CancelAt, "cancel_on": sc.CancelOn}
 	if obs.Hang {
 		out.Count("skipped.hang", 1) // termination is C02's business; the rest of this worker is skipped (poisoned)
 		return out
@@ -348,6 +352,13 @@ func (C06) evaluate(sc *C06Scenario) *sim.Outcome {
 		out.Count("fault.os."+f.Op+".planned", 1)
 		if fired[f.Op] > 0 {
 			out.Count("fault.os."+f.Op+".fired", 1)
+			host = true
+		}
+	}
+	if sc.CancelOn != nil {
+		out.Count("cancel_in_copy.planned", 1)
+		if obs.CancelOnFired {
+			out.Count("cancel_in_copy.fired", 1)
 			host = true
 		}
 	}
@@ -454,6 +465,7 @@ func minimiseC06(sc *C06Scenario, still func(*C06Scenario) bool) *C06Scenario {
 	}
 	simple := []func(*C06Scenario) bool{
 		func(y *C06Scenario) bool { r := y.CancelAt >= 0; y.CancelAt = -1; return r },
+		func(y *C06Scenario) bool { r := y.CancelOn != nil; y.CancelOn = nil; return r },
 		func(y *C06Scenario) bool { r := len(y.Disk.Faults) > 0; y.Disk.Faults = nil; return r },
 		func(y *C06Scenario) bool { r := len(y.OSFaults) > 0; y.OSFaults = nil; return r },
 		func(y *C06Scenario) bool { r := y.CwdMirror; y.CwdMirror = false; return r },
